@@ -10,3 +10,18 @@ pub fn vf_ceil_usize(x: f64) -> (n: usize)
         0real < rv(x) <= usize::MAX as real ==> (n as real) >= rv(x) && rv(x) > (n as real) - 1real,
         rv(x) > usize::MAX as real ==> n == usize::MAX,
 { unimplemented!() }
+
+// R4 target: `E as usize` for an f64 E (also `(E).floor() as usize`) -- the float->usize cast truncates toward zero and
+// saturates at 0 and usize::MAX.  Assumed std contract (real-number reading); only reached by rewritten code.
+#[verifier::external_body]
+pub fn vf_f64_to_usize(x: f64) -> (n: usize)
+    ensures
+        rv(x) < 1real ==> n == 0,
+        1real <= rv(x) < usize::MAX as real ==> (n as real) <= rv(x) && rv(x) < (n as real) + 1real,
+        rv(x) >= usize::MAX as real ==> n == usize::MAX,
+{ unimplemented!() }
+// f64::ceil / f64::floor on their own (e.g. `let c = x.ceil(); .. c as usize`): smallest integer >= x / largest <= x
+pub assume_specification [f64::ceil] (x: f64) -> (r: f64)
+    ensures rv(r) == (-((-rv(x)).floor())) as real;
+pub assume_specification [f64::floor] (x: f64) -> (r: f64)
+    ensures rv(r) == rv(x).floor() as real;
